@@ -390,7 +390,16 @@ def check(prop, tier, seed, only=None, only_bin=None):
     bad = audit_sources()
     thms = theorems_of(prop)
     targets = ["Props/%s.vo" % prop] + ["%s.vo" % m.replace(".", "/") for m in cfg["imports"]]
+    # second tie (translator): tables regenerated from the Rust source text, conformance theorems re-checked
+    gen_note = None
+    if cfg.get("src_tables"):
+        grc, gout = sh([sys.executable, os.path.join(ROOT, "tools", "gen_tables.py")], env={"TEVEC_REPO": REPO})
+        gen_note = gout.strip()
+        targets.append("Proofs/SrcTablesOk.vo")
+        if grc != 0:
+            bad.append("tools/gen_tables.py could not translate the source tables: " + gout.strip()[-300:])
     rc, out = make_targets(targets)
+    if gen_note: cov.update(source_table_translator=gen_note or "coq/Gen/SrcTables.v unchanged")
     proof_ok = rc == 0 and not bad
     assum = {}
     if rc == 0:
@@ -540,6 +549,18 @@ def check(prop, tier, seed, only=None, only_bin=None):
     if only is None:      # a replay of one case must not overwrite the evidence of the last full run
         write_evidence(prop, ev)
     shutil.rmtree(rundir, ignore_errors=True)
+    # a broken proof / harness / model run is reported with `no-failing-input-found` only when the correspondence run did
+    # not find a concrete failing input; when it did, those replays are the report (and name the broken step)
+    concrete = [v for v in violations if not v[1]]
+    if concrete:
+        broken = [os.path.relpath(v[0], ROOT) for v in violations if v[1]]
+        if broken:
+            for (path, _) in concrete:
+                try:
+                    r = json.load(open(path)); r["also_broken"] = broken; json.dump(r, open(path, "w"), indent=1)
+                except Exception:
+                    pass
+        violations = concrete
     for l in known_lines: print(l)
     for (path, suffix) in violations:
         print(("VIOLATION property=%s replay=%s %s" % (prop, os.path.relpath(path, ROOT), suffix)).rstrip())
@@ -548,6 +569,7 @@ def check(prop, tier, seed, only=None, only_bin=None):
     return 1 if violations else 0
 
 def setup():
+    sh([sys.executable, os.path.join(ROOT, "tools", "gen_tables.py")], env={"TEVEC_REPO": REPO})
     rc, out = sh([os.path.join(ROOT, "tools", "gen_coqproject.sh")])
     if rc != 0:
         print(out); return 1
